@@ -318,6 +318,22 @@ pub fn main(args: &[String]) {
     let n_exh = hist.len();
     for i in 0..n_random { let kind = (i % 9) as u64; hist.push((kind, gen_history(kind, &mut r, 14))); }
     let mut oracle_viol = vec![]; let mut samples = vec![]; let mut per_kind = vec![0u64; 9]; let mut op_hist = [0u64; 6]; let mut panics = 0u64; let mut dedups = 0u64; let mut total_steps = 0u64;
+    // the type set next to the hidden per-function ENTRY types (FunctionBuilder::new adds one for every function built): `find` and `add`
+    // never resolve to an entry type, find = the first live ordinary type with that signature, add of a present signature returns it
+    let mut n_entry_hist = 0u64;
+    for h in 0..(n_random / 4 + 40) { let mut rr = Rng::new(seed ^ (0x5151 + h as u64)); n_entry_hist += 1;
+        let res = catch(|| -> Option<String> { let mut m = Module::default(); let mut live: Vec<TypeId> = vec![]; let mut log = vec![];
+            let sig = |rr: &mut Rng| -> (Vec<ValType>, Vec<ValType>) { let np = rr.usize(2); let nr = rr.usize(3); ((0..np).map(|_| vt_of(rr.below(2))).collect(), (0..nr).map(|_| vt_of(rr.below(2))).collect()) };
+            for step in 0..(4 + rr.usize(12)) { match rr.below(5) {
+                0 => { let (p, q) = sig(&mut rr); let id = m.types.add(&p, &q); log.push(format!("add {:?}->{:?} = {}", p, q, id.index())); if m.types.get(id).verif_is_for_function_entry() { return Some(format!("step {}: add returned the entry type {} [{}]", step, id.index(), log.join("; "))); } if !live.contains(&id) { live.push(id); } }
+                1 => { let (p, q) = sig(&mut rr); let _b = FunctionBuilder::new(&mut m.types, &p, &q); log.push(format!("FunctionBuilder::new {:?}->{:?}", p, q)); if let Some(id) = m.types.find(&p, &q) { if !live.contains(&id) { live.push(id); } } }
+                2 => { if !live.is_empty() { let k = rr.usize(live.len()); let id = live.remove(k); log.push(format!("delete {}", id.index())); m.types.delete(id); } }
+                _ => { let (p, q) = sig(&mut rr); let got = m.types.find(&p, &q); let want = m.types.iter().find(|t| !t.verif_is_for_function_entry() && t.params() == &p[..] && t.results() == &q[..]).map(|t| t.id());
+                       log.push(format!("find {:?}->{:?} = {:?}", p, q, got.map(|i| i.index())));
+                       if got != want { return Some(format!("step {}: find returned {:?}, the first live ordinary type with that signature is {:?} [{}]", step, got.map(|i| i.index()), want.map(|i| i.index()), log.join("; "))); } } } }
+            None });
+        match res { Some(None) => {}, Some(Some(v)) => oracle_viol.push(Json::obj(vec![("kind", Json::Num(0.0)), ("what", Json::Str(format!("types with function-entry types: {}", v))), ("case", Json::Str(String::new()))])),
+            None => oracle_viol.push(Json::obj(vec![("kind", Json::Num(0.0)), ("what", Json::Str("types with function-entry types: an operation panicked".into())), ("case", Json::Str(String::new()))])) } }
     let mut seen = std::collections::HashSet::new(); let mut nontrivial = 0u64;
     for (kind, ops) in &hist {
         // drop ids that were never handed out (possible for types because of de-duplication)
@@ -342,7 +358,7 @@ pub fn main(args: &[String]) {
         ("per_kind", Json::Arr(per_kind.iter().map(|x| Json::Num(*x as f64)).collect())),
         ("op_histogram", Json::obj(vec![("alloc", Json::Num(op_hist[0] as f64)), ("delete", Json::Num(op_hist[1] as f64)), ("get", Json::Num(op_hist[2] as f64)), ("iter", Json::Num(op_hist[3] as f64)), ("len", Json::Num(op_hist[4] as f64)), ("find", Json::Num(op_hist[5] as f64))])),
         ("panics_observed", Json::Num(panics as f64)), ("dedup_hits", Json::Num(dedups as f64)),
-        ("samples", Json::Arr(samples.into_iter().map(Json::Str).collect())), ("oracle_violations", Json::Arr(oracle_viol)),
+        ("samples", Json::Arr(samples.into_iter().map(Json::Str).collect())), ("oracle_violations", Json::Arr(oracle_viol)), ("entry_type_histories", Json::Num(n_entry_hist as f64)),
     ]);
     std::fs::write(format!("{}/meta.json", out_dir), meta.to_string()).unwrap();
 }
